@@ -252,6 +252,16 @@ def main():
     base["VERIF_CWD"] = pkgdir
 
     if a.replay:
+        try:
+            rdoc = json.load(open(a.replay))
+        except Exception:
+            rdoc = {}
+        if rdoc.get("check") == "(process)":
+            # a failure of the whole test process (runtime fatal error inside the library): there is no tape to
+            # replay; the record holds the crash log, and the tier is simply run again on the current tree
+            print("process-level failure record, not replayable from a tape; recorded:\n%s\n--- running the %s tier again ---" % (rdoc.get("error", "")[:3000], tier))
+            a.replay = None
+    if a.replay:
         env = dict(base, VERIF_REPLAY=os.path.abspath(a.replay))
         p = subprocess.run([binary, "-test.run", "^TestReplay$", "-test.v", "-test.timeout", "600s"], env=env, cwd=pkgdir,
                            stdout=subprocess.PIPE, stderr=subprocess.STDOUT, text=True)
